@@ -20,7 +20,7 @@
     item of [items] for the value [a] with the formatter and runs [unambiguous_ws_b]. *)
 From Coq Require Import ZArith List Bool.
 From V Require Import Base.Int Base.IO Base.Utf8 Model.Scan Model.Items Model.Parse
-  Proofs.Utf8 Proofs.Scan Proofs.C13 Proofs.C13Reads Proofs.C13Fmt Proofs.C13Examples Proofs.C13Names Proofs.C13Digits Proofs.C13Safe Proofs.C13Time Proofs.C13Date Proofs.C13OneWay Proofs.C13View Proofs.C13DateTime Proofs.C13DateForms Proofs.C13TimeForms Proofs.C13Zoned Proofs.C13General.
+  Proofs.Utf8 Proofs.Scan Proofs.C13 Proofs.C13Reads Proofs.C13Fmt Proofs.C13Examples Proofs.C13Names Proofs.C13Digits Proofs.C13Safe Proofs.C13Time Proofs.C13Date Proofs.C13OneWay Proofs.C13View Proofs.C13DateTime Proofs.C13DateForms Proofs.C13TimeForms Proofs.C13Zoned Proofs.C13General Proofs.C13Static.
 From V Require Model.Parsed Model.Format Model.Strftime Model.Time Model.DateTime Spec.StrftimeDoc Spec.Gregorian Proofs.C12 Proofs.C14.
 Import ListNotations.
 Open Scope Z_scope.
@@ -547,6 +547,79 @@ Example C13_general_members :
     [num0 N_YearMod100; Literal [45]; num0 N_Month; Literal [45]; num0 N_Day; Space [32]; num0 N_Hour; Literal [58]; num0 N_Minute] = false.
 Proof. exact ex_general_member. Qed.
 Print Assumptions C13_general_members.
+
+(** ** The same with premises on the ITEM LIST ONLY, for EVERY value.  [static_ok items] decides a class
+    of item lists whose documented renderings the reader takes back whatever the value: every Numeric
+    item (supported kinds except %C %y %g, whose two-digit / century forms are not printed-and-read for
+    negative years) either fills the reader's width (zero padded two-digit fields, %j, %f; the
+    one-digit fields) or is followed by text that cannot start with a digit -- a year always needs
+    that; a white-space item is not followed by text that can start with white space; %.f %.3f %.6f
+    %.9f are followed by neither a digit nor, for %.f, a dot; literals are ASCII.  [it_kind_ok] says
+    the value has the fields the items print; [static_date_ok] / [static_time_ok] decide the
+    sufficient combination on the fields the items write ([sfields]); [frac_class_ok k] that all
+    fraction items print the same precision [k].  The class is a decidable under-approximation of
+    "unambiguous and sufficient": the C13_general_*_partial theorems remain for lists outside it. *)
+Theorem C13_class_accepted_for_every_value : forall sv on, sv_bounds sv -> forall items texts,
+  static_ok items = true -> Forall2 (doc_item sv on) items texts ->
+  exists ws, unambiguous_b (combine items texts) [] = Some ws.
+Proof. exact static_accept. Qed.
+Print Assumptions C13_class_accepted_for_every_value.
+
+Theorem C13_class_date_roundtrip : forall items,
+  static_ok items = true -> forallb (it_kind_ok true false) items = true -> static_date_ok items = true ->
+  forall y o d, Proofs.C08Sweeps.repr y o d ->
+  exists text,
+    Model.Format.write_items (Model.Format.fa_of_date d) items [] = Model.Format.fok text /\
+    (let+ p := parse Model.Parsed.parsed_new text items in pr_of (Model.Parsed.to_naive_date p)) = pok d.
+Proof. exact static_date_roundtrip. Qed.
+Print Assumptions C13_class_date_roundtrip.
+
+(* [static_time_value items k t]: [t] with the second (and leap flag) kept iff an item prints it, else
+   the whole minute; the fraction cut to [k] digits iff a fraction item is present, else dropped *)
+Theorem C13_class_time_roundtrip : forall items k,
+  static_ok items = true -> forallb (it_kind_ok false true) items = true -> static_time_ok items = true ->
+  frac_class_ok k items = true -> k = 3 \/ k = 6 \/ k = 9 ->
+  forall t, valid_time t ->
+  exists text,
+    Model.Format.write_items (Model.Format.fa_of_time t) items [] = Model.Format.fok text /\
+    (let+ q := parse Model.Parsed.parsed_new text items in pr_of (Model.Parsed.to_naive_time q))
+      = pok (static_time_value items k t).
+Proof. exact static_time_roundtrip. Qed.
+Print Assumptions C13_class_time_roundtrip.
+
+Theorem C13_class_ndt_roundtrip : forall items k,
+  static_ok items = true -> forallb (it_kind_ok true true) items = true ->
+  static_date_ok items = true -> static_time_ok items = true ->
+  frac_class_ok k items = true -> k = 3 \/ k = 6 \/ k = 9 ->
+  forall y o d t, Proofs.C08Sweeps.repr y o d -> valid_time t ->
+  exists text,
+    Model.Format.write_items (Model.Format.fa_of_ndt (Model.DateTime.mk_ndt d t)) items [] = Model.Format.fok text /\
+    (let+ q := parse Model.Parsed.parsed_new text items in pr_of (Model.Parsed.to_naive_datetime_with_offset q 0)) =
+      pok (Model.DateTime.mk_ndt d (static_time_value items k t)).
+Proof. exact static_ndt_roundtrip. Qed.
+Print Assumptions C13_class_ndt_roundtrip.
+
+(* members by computation on the item list alone: the families above, "%A, %d %B %Y %I:%M:%S%.3f %p",
+   "%d/%m/%Y %H:%M", "%j of %Y,%k:%M:%S%.f", "%G-W%V-%a %H:%M"; non-members: "%Y%m%dT%H%M%S" (a digit
+   after the year), "%Y-%m-%d %H:%M%.3f" (a fraction without the seconds) *)
+Example C13_class_members :
+  ndt_static 9 NDT_T_FMT = true /\ ndt_static 9 NDT_SP_FMT = true /\
+  ndt_static 3 ex_general_items = true /\
+  ndt_static 9 [num0 N_Year; num0 N_Month; num0 N_Day; Literal [84]; num0 N_Hour; num0 N_Minute; num0 N_Second] = false /\
+  ndt_static 9 [num0 N_Day; Literal [47]; num0 N_Month; Literal [47]; num0 N_Year; Space [32]; num0 N_Hour; Literal [58]; num0 N_Minute] = true /\
+  ndt_static 9 [num0 N_Ordinal; Literal [32; 111; 102; 32]; num0 N_Year; Literal [44]; nums N_Hour; Literal [58]; num0 N_Minute;
+                Literal [58]; num0 N_Second; IFixed F_Nanosecond] = true /\
+  ndt_static 9 [num0 N_IsoYear; Literal [45; 87]; num0 N_IsoWeek; Literal [45]; IFixed F_ShortWeekdayName; Space [32];
+                num0 N_Hour; Literal [58]; num0 N_Minute] = true /\
+  ndt_static 3 (YMD_FMT ++ [Space [32]; num0 N_Hour; Literal [58]; num0 N_Minute; IFixed F_Nanosecond3]) = false /\
+  (static_ok YMD_FMT && forallb (it_kind_ok true false) YMD_FMT && static_date_ok YMD_FMT) = true /\
+  (static_ok YJ_FMT && forallb (it_kind_ok true false) YJ_FMT && static_date_ok YJ_FMT) = true /\
+  (static_ok ISOW_FMT && forallb (it_kind_ok true false) ISOW_FMT && static_date_ok ISOW_FMT) = true /\
+  (static_ok IMSP_FMT && forallb (it_kind_ok false true) IMSP_FMT && static_time_ok IMSP_FMT) = true /\
+  (static_ok (HMSF F_Nanosecond) && forallb (it_kind_ok false true) (HMSF F_Nanosecond) && static_time_ok (HMSF F_Nanosecond)
+   && frac_class_ok 9 (HMSF F_Nanosecond)) = true.
+Proof. exact static_members. Qed.
+Print Assumptions C13_class_members.
 
 (* the entry points' lazily driven loops coincide with the loops over the yielded item list *)
 Theorem C13_parse_sf_loop_is_parse_items : forall items fuel p s st, yields st items -> (List.length items < fuel)%nat ->
